@@ -285,7 +285,7 @@ def noise_gauss(a: Union[np.ndarray, List], snr=None, snr_in_db=True, std=1.0):
     if snr is not None:
         if not np.isscalar(snr):
             snr = np.asarray(snr)
-        sp = np.mean(a**2)  # signal power
+        sp = np.mean(np.asarray(a, dtype=np.float64) ** 2)  # signal power
 
         if snr_in_db is True:
             std_n = (sp / (10 ** (snr / 10))) ** 0.5
